@@ -192,6 +192,9 @@ func setupOracle(e *Env, o core.RunOpts) error {
 	e.Shared["oracle.genesis.params"] = params
 	e.Desc("oracle params: exp=%d maxask=%d try=%d maxraw=%d", params.ExpirationBlockCount, params.MaxAskCount, params.SamplingTryCount, params.MaxRawRequestCount)
 	cfg := world.Config{Seed: o.Seed, ChainID: "simband", ValTokens: tokens, NumUsers: 5, Replicas: 1, GenesisTime: baseTime}
+	if o.Prop == "C09" && e.Ch.Bool("cfg.c09.replicas", 800) {
+		cfg.Replicas = 2 // determinism of the selection: two nodes execute every block
+	}
 	faults := drawFaults(e, false)
 	var dss []dsSpec
 	withFees := o.Prop == "C13" || e.Ch.Bool("cfg.oracle.fees", 300)
@@ -252,6 +255,9 @@ func setupTSS(e *Env, o core.RunOpts) error {
 	e.Shared["bandtss.genesis.params"] = bp
 	e.Shared["bandtss.genesis.current"] = uint64(1)
 	cfg := world.Config{Seed: o.Seed, ChainID: "simband", ValTokens: tokens, NumUsers: 14, Replicas: 1, GenesisTime: baseTime}
+	if o.Prop == "C09" && e.Ch.Bool("cfg.c09.replicas", 800) {
+		cfg.Replicas = 2 // determinism of the selection: two nodes execute every block
+	}
 	if o.Prop == "C03" {
 		cfg.NumUsers = 34
 	}
@@ -322,6 +328,9 @@ func setupTransition(e *Env, o core.RunOpts) error {
 	e.Shared["tss.genesis.params"] = tp
 	e.Shared["bandtss.genesis.params"] = bp
 	cfg := world.Config{Seed: o.Seed, ChainID: "simband", ValTokens: tokens, NumUsers: 13, Replicas: 1, GenesisTime: baseTime}
+	if o.Prop == "C09" && e.Ch.Bool("cfg.c09.replicas", 800) {
+		cfg.Replicas = 2 // determinism of the selection: two nodes execute every block
+	}
 	faults := drawFaults(e, false)
 	faults.TimeJump /= 3
 	var accs []*world.Account
@@ -583,7 +592,22 @@ func setupEconomy(e *Env, o core.RunOpts) error {
 		dg.Params.CommunityTax = math.LegacyMustNewDecFromStr(tax)
 		gs[distrtypes.ModuleName] = cdc.MustMarshalJSON(&dg)
 	}
-	cfg.GenesisMods = append(cfg.GenesisMods, govGenesis(4*time.Second), taxMod, oracleGenesis(e, op, dss),
+	slashing := e.Ch.Bool("cfg.eco.slashing", 300)
+	slashMod := func(w *world.World, gs band.GenesisState) {
+		if !slashing {
+			return
+		}
+		// short downtime window: validators that miss blocks are slashed and jailed during the run, also while delegations unbond
+		cdc := w.Replicas[0].App.AppCodec()
+		var sg slashingtypes.GenesisState
+		cdc.MustUnmarshalJSON(gs[slashingtypes.ModuleName], &sg)
+		sg.Params.SignedBlocksWindow = int64(e.Ch.Range("cfg.eco.window", 5, 20))
+		sg.Params.MinSignedPerWindow = math.LegacyNewDecWithPrec(7, 1)
+		sg.Params.DowntimeJailDuration = 5 * time.Second
+		sg.Params.SlashFractionDowntime = math.LegacyNewDecWithPrec(int64(1+e.Ch.Intn("cfg.eco.slashpct", 20)), 2)
+		gs[slashingtypes.ModuleName] = cdc.MustMarshalJSON(&sg)
+	}
+	cfg.GenesisMods = append(cfg.GenesisMods, govGenesis(4*time.Second), taxMod, slashMod, oracleGenesis(e, op, dss),
 		tssGenesis(e, tssGenesisCfg{TSSParams: tp, BandtssParams: bp, GroupMembers: pool.Members, Threshold: thr, InitialDEs: e.Ch.Intn("cfg.tss.initde", int(tp.MaxDESize)+1), GrindKey: e.Ch.Bool("cfg.tss.grindkey", 60)}))
 	w, err := world.New(e.Ch, e.Log, e.St, cfg, o.Scratch)
 	if err != nil {
@@ -599,6 +623,9 @@ func setupEconomy(e *Env, o core.RunOpts) error {
 		&TSSActor{Pool: pool, ByzP: 0, ReactP: 200, OverDEP: 0},
 		&SigRequester{Rate: e.Ch.Intn("cfg.sigreq.rate", 400), MaxOpen: 3, Senders: w.Users[size:], LimitW: []int{100, 0, 0, 0}},
 		&FeeActor{Users: w.Users[size:], Rate: 300 + e.Ch.Intn("cfg.eco.feerate", 400)})
+	if slashing {
+		e.Actors = append(e.Actors, &DelegationChurn{Users: w.Users[size:], Rate: 500})
+	}
 	e.Monitors = append(e.Monitors, &C14{}, &C05{}, &C10{}, NewC01(), &C09{WithTSS: true})
 	e.MaxSteps = e.Ch.Range("cfg.steps", 40, 110)
 	if o.Thorough {
